@@ -73,7 +73,7 @@ def rsStep (z : Zc) (ws : List String) : Zc × String :=
   | ["zc.op", op] =>
     let o : Option ZOp := match op.splitOn ":" with
       | ["set", i] => i.toNat?.map .setInstance
-      | ["get"] => some .get | ["close"] => some .close
+      | ["get"] => some .get | ["getfail"] => some .getFail | ["close"] => some .close
       | ["lookup", b] => some (.lookup (b == "1"))
       | _ => none
     match o with
